@@ -13,6 +13,7 @@
   code does and the statements below say so explicitly.  All statements hold for every tie rule.
 -/
 import QKV.Lemmas.FixedQ
+import QKV.Lemmas.F32
 namespace QKV.Props.C02
 open QKV
 
@@ -244,6 +245,85 @@ theorem C02_hardSigmoid_mono {x y : ℚ} (h : x ≤ y) : hardSigmoid x ≤ hardS
   unfold hardSigmoid
   simp only
   split <;> split <;> (try split) <;> (try split) <;> linarith
+
+/-! ## the float32 hard-sigmoid surrogate: the one inexact step of the default tanh / sigmoid path
+
+`hard_sigmoid` computes `0.5 * x + 0.5` in float32 and clips it to `[0, 1]`.  The product by 0.5 is
+exact; the sum is rounded once (`rnd32`, IEEE round-to-nearest-even on exact rationals, `Model/F32`).
+The rounding error is at most half a unit in the last place, which on `[0, 1)` is `2^-25`: so the
+float32 surrogate differs from the exact one by at most `2^-25`, and the quantized output is within
+`step/2 + 2^-25` of the exact surrogate — "ties may go either way", nothing more. -/
+
+/-- IEEE round-to-nearest: the error of one rounding is at most half an ulp of the argument's binade -/
+theorem C02_rnd32_err (q : ℚ) : |rnd32 q - q| ≤ pow2 (ulpExp q) / 2 := by
+  have hu := pow2_pos (ulpExp q)
+  unfold rnd32
+  split
+  · rename_i h0
+    subst h0
+    simp only [sub_zero, abs_zero]
+    exact (div_pos hu (by norm_num)).le
+  · have e := roundTie_err .even (q / pow2 (ulpExp q))
+    have : ((roundTie .even (q / pow2 (ulpExp q)) : ℤ) : ℚ) * pow2 (ulpExp q) - q =
+        (((roundTie .even (q / pow2 (ulpExp q)) : ℤ) : ℚ) - q / pow2 (ulpExp q)) * pow2 (ulpExp q) := by
+      field_simp
+    rw [this, abs_mul, abs_of_pos hu]
+    calc |((roundTie .even (q / pow2 (ulpExp q)) : ℤ) : ℚ) - q / pow2 (ulpExp q)| * pow2 (ulpExp q)
+        ≤ 1 / 2 * pow2 (ulpExp q) := mul_le_mul_of_nonneg_right e hu.le
+      _ = pow2 (ulpExp q) / 2 := by ring
+
+/-- on `[0, 1)` one ulp is at most `2^-24` -/
+theorem ulpExp_le_of_lt_one {q : ℚ} (h0 : 0 < q) (h1 : q < 1) : ulpExp q ≤ -24 := by
+  have hfl : floorLog2Rat q < 0 := floorLog2Rat_lt h0 (by simpa [pow2] using h1)
+  unfold ulpExp
+  rw [show rabs q = q from by unfold rabs; simp [not_lt.mpr h0.le]]
+  unfold imax
+  split <;> omega
+
+/-- **surrogate error** (DESIGN §4 C02): for every rational `x ∈ [-1, 1]` the float32 evaluation of
+    `0.5·x + 0.5` is within `2^-25` of the exact value -/
+theorem C02_surrogate_error (x : ℚ) (hx : |x| ≤ 1) :
+    |rnd32 (x / 2 + 1 / 2) - (x / 2 + 1 / 2)| ≤ pow2 (-25) := by
+  obtain ⟨hlo, hhi⟩ := abs_le.mp hx
+  set q := x / 2 + 1 / 2 with hq
+  have hq0 : 0 ≤ q := by rw [hq]; linarith
+  have hq1 : q ≤ 1 := by rw [hq]; linarith
+  rcases eq_or_lt_of_le hq0 with h0 | h0
+  · rw [← h0]
+    simp [rnd32, (pow2_pos (-25)).le]
+  rcases eq_or_lt_of_le hq1 with h1 | h1
+  · rw [h1, rnd32_of_isF32 (by decide +kernel : isF32 1 = true)]
+    simp [(pow2_pos (-25)).le]
+  · calc |rnd32 q - q| ≤ pow2 (ulpExp q) / 2 := C02_rnd32_err q
+      _ ≤ pow2 (-24) / 2 := by
+          have := pow2_le_pow2 (ulpExp_le_of_lt_one h0 h1)
+          linarith
+      _ = pow2 (-25) := by
+          rw [show (-24 : ℤ) = -25 + 1 from rfl, pow2_add]
+          simp [pow2]
+
+/-- hence the hard-sigmoid based `quantized_sigmoid`, evaluated on the FLOAT32 surrogate value, is
+    within half a step plus `2^-25` of the EXACT surrogate (inside the code range): nearest code up to
+    one float rounding of the surrogate -/
+theorem C02_sigmoid_nearest_f32 (t : Tie) (bits : ℤ) (sym : Bool) (x : ℚ) (hx : |x| ≤ 1)
+    (h1 : (if sym then 1 else 0) / (tp bits : ℚ) ≤ rnd32 (x / 2 + 1 / 2))
+    (h2 : rnd32 (x / 2 + 1 / 2) ≤ 1 - 1 / (tp bits : ℚ)) :
+    |qsigmoidP t bits sym (rnd32 (x / 2 + 1 / 2)) - (x / 2 + 1 / 2)| ≤
+      1 / (2 * (tp bits : ℚ)) + pow2 (-25) := by
+  have a := C02_sigmoid_nearest t bits sym (rnd32 (x / 2 + 1 / 2)) h1 h2
+  have b := C02_surrogate_error x hx
+  calc |qsigmoidP t bits sym (rnd32 (x / 2 + 1 / 2)) - (x / 2 + 1 / 2)|
+      = |(qsigmoidP t bits sym (rnd32 (x / 2 + 1 / 2)) - rnd32 (x / 2 + 1 / 2)) +
+          (rnd32 (x / 2 + 1 / 2) - (x / 2 + 1 / 2))| := by ring_nf
+    _ ≤ |qsigmoidP t bits sym (rnd32 (x / 2 + 1 / 2)) - rnd32 (x / 2 + 1 / 2)| +
+          |rnd32 (x / 2 + 1 / 2) - (x / 2 + 1 / 2)| := abs_add_le _ _
+    _ ≤ 1 / (2 * (tp bits : ℚ)) + pow2 (-25) := add_le_add a b
+
+/-- non-vacuity / sharpness: the bound is attained up to a factor 2 — `x = 1 − 2^-24 − 2^-25·…`: the
+    float32 sum at `x = -2^-25` (exact value `1/2 − 2^-26`) rounds to `1/2`, an error of exactly `2^-26` -/
+example : rnd32 ((-(pow2 (-25))) / 2 + 1 / 2) = 1 / 2 ∧
+    |rnd32 ((-(pow2 (-25))) / 2 + 1 / 2) - ((-(pow2 (-25))) / 2 + 1 / 2)| = pow2 (-26) := by
+  refine ⟨by decide +kernel, by decide +kernel⟩
 
 /-! ## non-vacuity -/
 
